@@ -112,9 +112,11 @@ static void gen_decimal(vh_rng_t * rng, lit_t * l, int want_integer) {
     hasexp = !want_integer && vh_chance(rng, 1, 2);
     if (hasexp) {
         int e = (int) vh_below(rng, vh_chance(rng, 1, 3) ? 331 : 40), w;
-        if (vh_chance(rng, 1, 3)) { w = 1 + (int) vh_below(rng, 2); while (w--) { l->text[k++] = vh_chance(rng, 1, 4) ? '\t' : ' '; l->has_ws = 1; } }
+        /* the white space around the exponent mark is as unbounded as the digits: most runs are 1..2 blanks, some 3..130 (around the sizes a decoder's buffer may have) */
+        static const int longruns[] = { 3, 9, 30, 59, 60, 61, 62, 63, 64, 65, 66, 130 };
+        if (vh_chance(rng, 1, 3)) { w = vh_chance(rng, 1, 8) && k < 300 ? longruns[vh_below(rng, 12)] : 1 + (int) vh_below(rng, 2); if (w > 2) vh_count("fp.literal_with_a_long_run_of_blanks_around_the_exponent_mark", 1); while (w--) { l->text[k++] = vh_chance(rng, 1, 4) ? '\t' : ' '; l->has_ws = 1; } }
         l->text[k++] = vh_chance(rng, 1, 2) ? 'E' : 'e';
-        if (vh_chance(rng, 1, 3)) { w = 1 + (int) vh_below(rng, 2); while (w--) { l->text[k++] = ' '; l->has_ws = 1; } }
+        if (vh_chance(rng, 1, 3)) { w = vh_chance(rng, 1, 8) && k < 300 ? longruns[vh_below(rng, 12)] : 1 + (int) vh_below(rng, 2); if (w > 2) vh_count("fp.literal_with_a_long_run_of_blanks_around_the_exponent_mark", 1); while (w--) { l->text[k++] = ' '; l->has_ws = 1; } }
         switch (vh_below(rng, 3)) { case 0: l->text[k++] = '+'; break; case 1: l->text[k++] = '-'; break; default: break; }
         k += (size_t) snprintf(l->text + k, sizeof l->text - k, "%d", e);
     }
